@@ -7,11 +7,19 @@ import MtailVerif.Model.Bytes
 namespace MtailVerif.TailerPoll
 open MtailVerif
 
-/-- `other`: something that is neither a regular file nor a directory and that no stream can be
-    opened on (a device, a socket file): `Ignore` lets it through, `TailPath` fails on it, and
-    `doPatternGlob` goes on to the next match -/
-inductive Kind | file | dir | other
+/-- `device`, `socket`: things that are neither a regular file nor a directory.  `Ignore` lets them
+    through, `TailPath` fails on them (`logstream.New` takes regular files and pipes only) and
+    `doPatternGlob` goes on to the next match: no stream is ever *started* on one.  A stream that is
+    already tailing the path when such a thing takes the log's place follows it if it can be opened
+    (a device: a symlink to /dev/null, say) and ends if it cannot (a socket file) -/
+inductive Kind | file | dir | device | socket
 deriving DecidableEq, Repr
+
+/-- can a stream that finds this at its path go on (re-open it)? -/
+def Kind.reopens : Kind → Bool
+  | .file => true
+  | .device => true
+  | _ => false
 
 structure T where
   nodes : List (Bytes × Kind) := []      -- existing absolute paths
@@ -32,7 +40,7 @@ structure Cfg where
 inductive Op
   | createFile (p : Bytes)
   | mkdir (p : Bytes)
-  | createOther (p : Bytes)
+  | createOther (p : Bytes) (k : Kind)
   | remove (p : Bytes)
   | rename (p q : Bytes)
   | appendLine (p l : Bytes)
@@ -59,7 +67,7 @@ def globOne (cfg : Cfg) (t : T) (pat : Bytes) : T :=
 /-- a woken stream whose path no longer names a file ends and is dropped from the map; one whose
     path names a new file reopens it and reads it from the start -/
 def streamWake (t : T) : T :=
-  { t with streams := t.streams.filter (fun p => kindOf t p = some .file),
+  { t with streams := t.streams.filter (fun p => ((kindOf t p).map Kind.reopens).getD false),
            delivered := t.delivered ++ t.pending.filter (fun d => kindOf t d.1 = some .file && t.streams.contains d.1),
            pending := [], fresh := [] }
 
@@ -71,7 +79,7 @@ def step (cfg : Cfg) (t : T) : Op → T
     if (kindOf t p).isSome then t
     else { t with nodes := t.nodes ++ [(p, .file)], fresh := if t.streams.contains p then p :: t.fresh else t.fresh }
   | .mkdir p => if (kindOf t p).isSome then t else { t with nodes := t.nodes ++ [(p, .dir)] }
-  | .createOther p => if (kindOf t p).isSome then t else { t with nodes := t.nodes ++ [(p, .other)] }
+  | .createOther p k => if (kindOf t p).isSome then t else { t with nodes := t.nodes ++ [(p, k)] }
   | .remove p => { t with nodes := t.nodes.filter (·.1 ≠ p), pending := t.pending.filter (·.1 ≠ p) }
   | .rename p q =>
     match kindOf t p, kindOf t q with
